@@ -61,6 +61,12 @@ def entry_assign_rates(it):
     from naunet.grains.grain import Grain
     fn = tlm.TemplateLoader._assign_rates
     slf = object.__new__(tlm.TemplateLoader)
+    # the statements are the same for every solver configuration (host and device code evaluate the same guarded assignments)
+    method, device = [("dense", "cpu"), ("sparse", "cpu"), ("cusparse", "gpu"), ("rosenbrock4", "cpu")][it.choose(4, "configuration")]
+    try:
+        slf._general = tlm.TemplateLoader.GeneralInfo(method, device, "0", project_version="0")
+    except Exception:
+        slf._general = None
     n = z3.Int("n_items")
     g = z3.Int("g")
     it.assume(z3.And(0 <= g, g < n))
